@@ -171,14 +171,16 @@ def selectHeap (c : Cfg) (rank : List Nat) (store : List Agent) (draws : Nat →
    store.length,
    (List.range np.length).map fun k => store.length + 1 + k)
 
-/-- Repeated selection.  `Reach c p q`: population `q` is reachable from `p` by any number of
-    generations; in each generation anything may happen to the agents except a change of their
-    indices (evaluation appends fitness, training, mutation — `q'` below), then `select` runs with
-    an arbitrary valid ranking and arbitrary draws. -/
+/-- Repeated selection with one selector.  `Reach c p q`: population `q` is reachable from `p` by
+    any number of `select` calls of the same configuration.  Between two calls *anything* may
+    happen: evaluation appends fitness, training, mutation — but also re-indexing, resizing,
+    restoring a checkpoint, or handing the selector a completely unrelated population (`q'` below
+    is any non-empty population; index-preserving changes of `q` are the special case of one
+    lineage).  `select` has no memory: `max_id` is recomputed from the population it is given. -/
 inductive Reach (c : Cfg) : List Agent → List Agent → Prop
   | refl (p : List Agent) : Reach c p p
   | step {p q q' : List Agent} {rank : List Nat} {draws : Nat → List Nat} :
-      Reach c p q → q'.map (·.index) = q.map (·.index) → IsRanking (keys c.evalLoop q') rank →
+      Reach c p q → q' ≠ [] → IsRanking (keys c.evalLoop q') rank →
       Reach c p (newPop c rank q' draws)
 
 end Tournament
